@@ -107,7 +107,8 @@ def enc(v):
         return {"d": {str(k): enc(x) for k, x in v.items()}}
     if type(v) is float:
         return {"f": repr(v)}
-    return {"obj": type(v).__name__}
+    # an element object travelling as a value (a Sequence iterated as first element of a Source)
+    return "<obj:%s>" % type(v).__name__
 
 
 def model_value(j):
@@ -117,6 +118,8 @@ def model_value(j):
     if isinstance(j, dict):
         if "q" in j:
             n, d = j["q"]
+            if d == 0:
+                return {"f": "*"}        # some float: the model does not compute its value
             return {"f": repr(float(n) / float(d))}
         if "t" in j:
             return {"t": [model_value(x) for x in j["t"]]}
@@ -279,7 +282,7 @@ def syn_class(run, call, fill, compute, nodata):
 
 
 # objects with none of the interfaces (an unconvertible *iterable* is the spec {"k": "iter"}: a list)
-JUNK = {"int": 5, "none": None, "float": 2.5}
+JUNK = {"none": None}
 
 
 def build(spec):
@@ -323,10 +326,21 @@ def build(spec):
         return lena.core.Split([tuple(build(s) for s in b) for b in spec["branches"]], bufsize=spec["bufsize"])
     if k == "run":
         return lena.core.Run(build(spec["el"]))
+    if k == "runnamed":
+        return lena.core.Run(build(spec["el"]), run="run")
+    if k == "runnone":
+        f = make_callable(spec["f"])
+
+        def gen_run(flow):
+            for v in flow:
+                yield f(v)
+        return lena.core.Run(None, run=gen_run)
+    if k == "runnonebad":
+        return lena.core.Run(None, run=5)
     if k == "syn":
         return syn_class(spec["run"], spec["call"], spec["fill"], spec["compute"], spec["nodata"])()
     if k == "junk":
-        return JUNK[spec.get("v", "int")]
+        return None
     if k == "setctx":
         return lena.meta.SetContext("verif", 1)
     if k == "gen":
@@ -343,7 +357,9 @@ def flags_of(el):
             return 0
         return 2 if callable(getattr(el, name)) else 1
     return {"run": attr("run"), "call": bool(callable(el)), "fill": attr("fill"), "compute": attr("compute"),
-            "nodata": hasattr(el, "_has_no_data"), "iter": hasattr(el, "__iter__")}
+            "nodata": hasattr(el, "_has_no_data"), "iter": hasattr(el, "__iter__"),
+            "fill_into": callable(getattr(el, "fill_into", None)), "can_break_flow": hasattr(el, "_can_break_flow"),
+            "is_split": isinstance(el, __import__("lena.core").core.Split)}
 
 
 def convertible(fl):
@@ -442,6 +458,25 @@ def run_flat(els, brk, flow, term):
     return observe(lambda: seq2.run(make_flow(flow, term)))
 
 
+def shape_of(els, brk):
+    """len(Sequence(*args)), and what meta.flatten gives for the first argument alone: the element itself, or the
+    number of elements of a (nested) sequence; also checks __getitem__/__iter__ against the arguments"""
+    import lena.core
+    args, err = _construct(lambda: [build(s) for s in nest(els, brk)])
+    if err:
+        return {"len": None, "first": None}
+    seq, err = _construct(lambda: lena.core.Sequence(*args))
+    if err:
+        return {"len": None, "first": None}
+    if list(seq) != list(args) or any(seq[i] is not args[i] for i in range(len(args))):
+        return {"len": "__iter__/__getitem__ do not return the arguments", "first": None}
+    first = None
+    if args:
+        fl = lena.core.flatten(args[0])
+        first = "element" if fl is args[0] and not isinstance(fl, lena.core.LenaSequence) else len(list(fl))
+    return {"len": len(seq), "first": first}
+
+
 def element_facts(els):
     """per top-level element: does its own constructor raise, its flags, convertibility (Python introspection only)"""
     facts = []
@@ -497,8 +532,12 @@ def run_impl(case):
         res = {"variants": [run_variant(els, b, flow, term, bool(case.get("lst"))) for b in case["brks"]],
                "flat": [run_flat(els, b, flow, term) for b in case["brks"][:2]],
                "facts": [{k: v for k, v in f.items() if k != "flags"} for f in element_facts(els)],
-               "ref": reference(els, flow, term)}
+               "ref": reference(els, flow, term),
+               "shape": shape_of(els, case["brks"][-1])}
         return res
+    if op == "source0":
+        src, err = _construct(lambda: lena.core.Source())
+        return err if err else {"built": True}
     if op == "source":
         first, els = case["first"], case["els"]
         n = len(els)
@@ -560,7 +599,20 @@ def model_requests(case):
         return reqs
     if op == "flags":
         return [{"op": "flags", "spec": case["spec"]}]
+    if op == "source0":
+        return [{"op": "source", "args": []}]
     raise ValueError(op)
+
+
+def _differs(m, v):
+    """model reply (canonical) against impl observation; {"f": "*"} in the model matches any float"""
+    if isinstance(m, dict) and m.get("f") == "*":
+        return not (isinstance(v, dict) and "f" in v)
+    if isinstance(m, dict) and isinstance(v, dict):
+        return set(m) != set(v) or any(_differs(m[k], v[k]) for k in m)
+    if isinstance(m, list) and isinstance(v, list):
+        return len(m) != len(v) or any(_differs(a, b) for a, b in zip(m, v))
+    return m != v
 
 
 def _canon_reply(m):
@@ -578,35 +630,38 @@ def compare(case, res, replies):
         nb = len(case["brks"])
         for i in range(nb):
             m = _canon_reply(replies[i])
-            if m != res["variants"][i]:
+            if _differs(m, res["variants"][i]):
                 return f"bracketing {case['brks'][i]}: impl {res['variants'][i]} vs model (Spec.toElement) {m}"
         for i, fl in enumerate(res["flat"]):
             m = _canon_reply(replies[nb + i])
-            if m != fl:
+            if _differs(m, fl):
                 return f"flatten of bracketing {case['brks'][i]}: impl {fl} vs model (mkSequence ∘ flatten) {m}"
         k = nb + len(res["flat"])
         m = _canon_reply(replies[k])
-        if m != res["variants"][0]:
+        if _differs(m, res["variants"][0]):
             return f"bracketing {case['brks'][0]}: impl {res['variants'][0]} vs model (build ∘ Spec.toTree) {m}"
         m = _canon_reply(replies[k + 1])
-        if "e" not in res["variants"][0] and m != res["variants"][0]:
+        if "e" not in res["variants"][0] and _differs(m, res["variants"][0]):
             return f"impl {res['variants'][0]} vs model fold of Element.den {m}"
         if replies[k + 2].get("n") != len(case["els"]):
             return f"Spec.flats of bracketing {case['brks'][-1]} has {replies[k + 2]} elements, expected {len(case['els'])}"
+        if replies[k + 2].get("nargs") != res["shape"]["len"] or (
+                res["shape"]["len"] is not None and replies[k + 2].get("first") != res["shape"]["first"]):
+            return f"len / flatten(first argument): impl {res['shape']} vs model {replies[k + 2]} (bracketing {case['brks'][-1]})"
         return None
     if op == "source":
         for i, cut in enumerate(case["cuts"]):
             m = _canon_reply(replies[i])
-            if m != res["variants"][i]:
+            if _differs(m, res["variants"][i]):
                 return f"cut {cut}: impl {res['variants'][i]} vs model {m}"
         return None
+    if op == "source0":
+        return None if res == replies[0] else f"Source(): impl {res} vs model {replies[0]}"
     if op == "flags":
         m = replies[0]
         if "e" in res or "e" in m:
             return None if res == m else f"impl {res} vs model {m}"
-        keys = ["run", "call", "fill", "compute", "nodata"]
-        if case["spec"]["k"] not in ("seq", "split"):
-            keys.append("iter")      # LenaSequence/LenaSplit are iterable over their elements: not modelled
+        keys = ["run", "call", "fill", "compute", "nodata", "iter", "fill_into", "can_break_flow", "is_split"]
         for k in keys:
             if res[k] != m[k]:
                 return f"flag {k}: impl {res[k]} vs model {m[k]} ({res} vs {m})"
@@ -632,6 +687,10 @@ def _init_expectation(facts):
 def oracle(case, res):
     op = case["op"]
     if op == "flags":
+        return None
+    if op == "source0":
+        if res != {"e": "LenaTypeError", "phase": "init"}:
+            return f"Source() without arguments must raise LenaTypeError at construction, got {res}"
         return None
     if op == "regroup":
         vs = res["variants"] + res["flat"]
@@ -683,7 +742,7 @@ def oracle(case, res):
         names = [("Source(first, *els)()" if c == n + 1 else f"Sequence(*els[{c}:]).run(Source(first, *els[:{c}])())")
                  for c in case["cuts"]]
         f0 = res["facts"][0]
-        first_ok = f0["ctor"] is None and not f0["nodata"] and case["first"]["k"] in ("gen", "iter")
+        first_ok = f0["ctor"] is None and not f0["nodata"] and case["first"]["k"] in ("gen", "iter", "seq")
         if not first_ok:
             return None      # first-element rules are covered by the correspondence, not by this statement
         for v, nm in zip(vs, names):
@@ -778,9 +837,32 @@ def gen_syn(rng, stateless=False):
         return s
 
 
+def fc_capable(spec):
+    """does the object have callable fill and compute (is_fill_compute_el)? decided from the spec alone"""
+    k = spec["k"]
+    if k in ("acc", "count"):
+        return True
+    if k == "syn":
+        return spec["fill"] == 2 and spec["compute"] == 2
+    if k == "split":
+        return bool(spec["branches"]) and all(any(fc_capable(e) for e in b) for b in spec["branches"])
+    return False
+
+
+def new_state(rerun=False, stateless=False, region=None):
+    """generation state.  rerun: the element is run more than once (inside RunIf / a Split sequence branch);
+    stateless: only elements without state between runs (the old restriction; still used where the model runs
+    an element without its history: RunIf before a fill/compute element, the sequence after it inside a rerun region);
+    region: shared flags of one rerun region - after an element with state (a Count updates its counter only when its
+    generator was driven to the end; a RunIf/Split that is not driven to the end does not run its inner elements on the
+    remaining values) no Slice (the only element that stops pulling early) is generated in the region: the model
+    describes a repeated run by the complete earlier inputs"""
+    return {"rerun": rerun, "stateless": stateless, "region": region if region is not None else ({"stateful_seen": False} if rerun else None)}
+
+
 def gen_atom(rng, st):
-    """a non-nested element; st: {"rerun": bool, "branch": bool, "floaty": bool}"""
-    rerun = st["rerun"]
+    """a non-nested element"""
+    rerun, stateless, region = st["rerun"], st["stateless"], st["region"]
     r = rng.random()
     if r < 0.22:
         return {"k": "call", "f": rng.choice(FNS)}
@@ -789,28 +871,35 @@ def gen_atom(rng, st):
     if r < 0.42:
         return {"k": "filter", "p": rng.choice(PREDS)}
     if r < 0.58:
+        if region is not None and region["stateful_seen"]:
+            return {"k": "filter", "p": rng.choice(PREDS)}
         return {"k": "slice", "args": rng.choice(SLICES) if rng.random() < 0.97 else rng.choice(BAD_SLICES)}
     if r < 0.64:
         return {"k": "reverse"}
     if r < 0.67:
         return {"k": "end"}
     if r < 0.70:
-        return {"k": "junk", "v": rng.choice(list(JUNK))} if rng.random() < 0.5 else {"k": "setctx"}
+        rr = rng.random()
+        if rr < 0.4:
+            return {"k": "junk"}
+        if rr < 0.8:
+            return {"k": "setctx"}
+        if rr < 0.9:
+            return {"k": "runnonebad"}
+        return {"k": "runnone", "f": rng.choice(FNS)}
     if r < 0.78:
-        s = gen_syn(rng, stateless=rerun)
-        if st["branch"]:
-            s["fill"] = 0       # a fill/compute element would change the type of the Split branch
+        s = gen_syn(rng, stateless=stateless)
+        if region is not None and s["fill"] == 2 and s["compute"] == 2 and not (s["run"] == 2 or s["call"]):
+            region["stateful_seen"] = True
         return s
-    if rerun:
+    if stateless:
         return {"k": "call", "f": rng.choice(FNS)}
+    if region is not None:
+        region["stateful_seen"] = True
     if r < 0.86:
         return {"k": "count", "name": rng.choice(COUNT_NAMES)}
     # accumulators
     a = rng.choice(["sum", "mean", "store", "store", "count"])
-    if st["floaty"] and a in ("sum", "mean"):
-        a = "store"
-    if a == "mean":
-        st["floaty"] = True
     if a == "store":
         return {"k": "acc", "a": "store", "group": rng.random() < 0.5}
     if a == "count":
@@ -818,34 +907,89 @@ def gen_atom(rng, st):
     return {"k": "acc", "a": a}
 
 
+def gen_branch(rng, st, depth):
+    """a tuple for Split.  Either no element of it has fill and compute (type "sequence": Sequence(*tuple), run once per
+    buffer) or it is [FillInto-able..., fill/compute element, ...] (type "fill_compute": FillComputeSeq(*tuple))"""
+    if not st["stateless"] and rng.random() < 0.35:
+        # fill_compute branch
+        pre = []
+        for _ in range(rng.choice([0, 0, 1, 1, 2])):
+            rr = rng.random()
+            if rr < 0.4:
+                pre.append({"k": "call", "f": rng.choice(FNS)})
+            elif rr < 0.55:
+                pre.append({"k": "var", "name": "x", "f": rng.choice(["inc", "neg", "ident"])})
+            elif rr < 0.8:
+                pre.append({"k": "filter", "p": rng.choice(PREDS)})
+            elif rr < 0.88 and depth < 2:
+                # FillInto runs a RunIf value by value (the model runs it without history: stateless inner elements)
+                ist = new_state(rerun=True, stateless=True)
+                pre.append({"k": "runif", "p": rng.choice(PREDS),
+                            "inner": [gen_elem(rng, ist, depth + 2) for _ in range(rng.choice([0, 1, 2]))]})
+            elif rr < 0.92:
+                pre.append({"k": "syn", "run": rng.choice([0, 2]), "call": True, "fill": rng.choice([0, 1]), "compute": 0,
+                            "nodata": rng.random() < 0.2})
+            elif rr < 0.96:
+                pre.append({"k": "setctx"})
+            else:
+                pre.append(rng.choice([{"k": "reverse"}, {"k": "junk"}, {"k": "end"},
+                                       {"k": "seq", "els": []}, {"k": "split", "branches": [], "bufsize": 1}]))
+        rr = rng.random()
+        if rr < 0.2:
+            fc = {"k": "count", "name": rng.choice(COUNT_NAMES)}
+        elif rr < 0.3:
+            fc = {"k": "syn", "run": rng.choice([0, 2]), "call": rng.random() < 0.3, "fill": 2, "compute": 2, "nodata": False}
+        else:
+            a = rng.choice(["sum", "mean", "store", "store", "count"])
+            fc = ({"k": "acc", "a": "store", "group": rng.random() < 0.5} if a == "store" else
+                  {"k": "acc", "a": "count", "name": rng.choice(COUNT_NAMES)} if a == "count" else {"k": "acc", "a": a})
+        # the sequence after the element is run once per Split.run (the model runs it without history)
+        ast = new_state(rerun=False, stateless=st["rerun"])
+        after = [gen_elem(rng, ast, depth + 1) for _ in range(rng.choice([0, 0, 1, 2]))]
+        return pre + [fc] + after
+    # sequence branch: one rerun region
+    bst = new_state(rerun=True, stateless=st["stateless"])
+    b = []
+    for _ in range(rng.choice([0, 1, 1, 2, 3])):
+        for _try in range(20):
+            if rng.random() < 0.25 and depth < 2:
+                e = {"k": "seq", "els": [gen_elem(rng, bst, depth + 2) for _ in range(rng.choice([0, 1, 2]))]}
+            else:
+                e = gen_elem(rng, bst, depth + 1)
+            if not fc_capable(e):       # it would change the type of the branch
+                break
+        else:
+            e = {"k": "call", "f": "ident"}
+        b.append(e)
+    return b
+
+
 def gen_elem(rng, st, depth):
     """an element, possibly nested (RunIf, Split, Sequence inside those)"""
     r = rng.random()
     if depth >= 3 or r < 0.78:
         a = gen_atom(rng, st)
-        if rng.random() < 0.06:
+        rr = rng.random()
+        if rr < 0.06:
             return {"k": "run", "el": a}          # the caller wraps the element with adapters.Run itself
+        if rr < 0.09:
+            return {"k": "runnamed", "el": a}     # Run(el, run="run")
         return a
-    inner_st = {"rerun": True, "branch": False, "floaty": st["floaty"]}
     if r < 0.88:
+        # the inner sequence of a RunIf is a rerun region of its own objects
+        ist = new_state(rerun=True, stateless=st["stateless"], region=st["region"] if st["rerun"] else None)
         n = rng.choice([0, 1, 1, 2, 3])
-        inner = [gen_elem(rng, inner_st, depth + 1) for _ in range(n)]
+        inner = [gen_elem(rng, ist, depth + 1) for _ in range(n)]
         if rng.random() < 0.25:
             inner = [{"k": "seq", "els": inner}]
         return {"k": "runif", "p": rng.choice(PREDS), "inner": inner}
     if r < 0.96:
         nb = rng.choice([0, 1, 2, 2, 3])
-        branches = []
-        for _ in range(nb):
-            bst = {"rerun": True, "branch": True, "floaty": st["floaty"]}
-            b = []
-            for _ in range(rng.choice([0, 1, 1, 2, 3])):
-                if rng.random() < 0.2 and depth < 2:
-                    sst = {"rerun": True, "branch": False, "floaty": st["floaty"]}
-                    b.append({"k": "seq", "els": [gen_elem(rng, sst, depth + 2) for _ in range(rng.choice([0, 1, 2]))]})
-                else:
-                    b.append(gen_elem(rng, bst, depth + 1))
-            branches.append(b)
+        branches = [gen_branch(rng, st, depth) for _ in range(nb)]
+        if st["rerun"] and st["region"] is not None:
+            # an element with state somewhere in the branches is upstream of whatever follows the Split in this region
+            if any(k == "count" or k.startswith("acc:") or k == "syn:fc" for b in branches for k in _kinds_of(b)):
+                st["region"]["stateful_seen"] = True
         bufsize = rng.choice([None, 1, 2, 3, 4, 1000]) if rng.random() < 0.97 else 0
         return {"k": "split", "branches": branches, "bufsize": bufsize}
     if st["rerun"]:
@@ -853,8 +997,15 @@ def gen_elem(rng, st, depth):
     return gen_atom(rng, st)
 
 
+def _kinds_of(specs):
+    out = []
+    for s in specs:
+        _kinds(s, out)
+    return out
+
+
 def gen_prog(rng, n):
-    st = {"rerun": False, "branch": False, "floaty": False}
+    st = new_state()
     return [gen_elem(rng, st, 0) for _ in range(n)]
 
 
@@ -877,10 +1028,22 @@ REPRESENTATIVES = (
        {"k": "syn", "run": 1, "call": True, "fill": 2, "compute": 2, "nodata": False},
        {"k": "syn", "run": 2, "call": True, "fill": 2, "compute": 2, "nodata": True},
        {"k": "syn", "run": 0, "call": False, "fill": 2, "compute": 1, "nodata": False},
-       {"k": "junk", "v": "int"}, {"k": "setctx"},
+       {"k": "junk"}, {"k": "setctx"},
        {"k": "slice", "args": [0, 5, 0]},
        {"k": "run", "el": {"k": "call", "f": "inc"}}, {"k": "run", "el": {"k": "acc", "a": "sum"}},
-       {"k": "run", "el": {"k": "count", "name": "n"}}, {"k": "run", "el": {"k": "junk", "v": "int"}}]
+       {"k": "run", "el": {"k": "count", "name": "n"}}, {"k": "run", "el": {"k": "junk"}},
+       {"k": "runnamed", "el": {"k": "count", "name": "n"}}, {"k": "runnone", "f": "inc"},
+       # elements that keep state between the runs of their sequence
+       {"k": "runif", "p": "all", "inner": [{"k": "count", "name": "n"}, {"k": "acc", "a": "sum"}]},
+       {"k": "runif", "p": "lt5", "inner": [{"k": "acc", "a": "store", "group": False}, {"k": "acc", "a": "mean"}]},
+       {"k": "split", "branches": [[{"k": "seq", "els": [{"k": "count", "name": "n"}]}],
+                                   [{"k": "seq", "els": [{"k": "acc", "a": "sum"}]}, {"k": "call", "f": "neg"}]], "bufsize": 2},
+       # Split branches of type fill_compute, alone and next to a sequence branch
+       {"k": "split", "branches": [[{"k": "call", "f": "inc"}, {"k": "acc", "a": "sum"}, {"k": "call", "f": "neg"}],
+                                   [{"k": "call", "f": "wrap"}]], "bufsize": 2},
+       {"k": "split", "branches": [[{"k": "filter", "p": "even"}, {"k": "count", "name": "n"}],
+                                   [{"k": "acc", "a": "mean"}, {"k": "acc", "a": "sum"}]], "bufsize": None},
+       {"k": "split", "branches": [[{"k": "reverse"}, {"k": "acc", "a": "sum"}]], "bufsize": 1}]
 )
 
 FLOW_A = [1, 2, 3, 4, 13, 6]
@@ -897,7 +1060,11 @@ def all_syn():
 
 
 def _floaty_conflict(els):
-    """Sum/Mean after a Mean would do float arithmetic (not modelled)"""
+    """(no longer a restriction: float totals are modelled, see accFillQ)"""
+    return False
+
+
+def _floaty_conflict_old(els):
     seen = False
     for e in els:
         if e["k"] == "run":
@@ -913,42 +1080,50 @@ def _floaty_conflict(els):
 def gen_cases(ctx):
     rng = ctx.rng
     thorough = ctx.tier == "thorough"
-    cases = []
     # ---- exhaustive scopes -------------------------------------------------------------------------
     kinds = list(REPRESENTATIVES) + [{"k": "gen", "flow": [1, 2]}, {"k": "iter", "flow": [1, 2]},
                                       {"k": "seq", "els": [{"k": "call", "f": "inc"}]}, {"k": "seq", "els": []},
-                                      {"k": "slice", "args": [1, -1, 0]}, {"k": "junk", "v": "none"},
-                                      {"k": "junk", "v": "float"},
+                                      {"k": "slice", "args": [1, -1, 0]},
+                                      {"k": "runnonebad"}, {"k": "runnone", "f": "inc"},
+                                      {"k": "runnamed", "el": {"k": "call", "f": "inc"}},
+                                      {"k": "runnamed", "el": {"k": "reverse"}},
+                                      {"k": "seq", "els": [{"k": "call", "f": "inc"}, {"k": "setctx"}, {"k": "count", "name": "n"},
+                                                           {"k": "junk"}]},
                                       {"k": "split", "branches": [[{"k": "junk"}]], "bufsize": 1},
                                       {"k": "split", "branches": [[]], "bufsize": 0},
                                       {"k": "runif", "p": "all", "inner": [{"k": "junk"}]},
                                       {"k": "runif", "p": "all", "inner": []}]
     for s in kinds:
-        cases.append({"op": "flags", "spec": s})
+        yield ({"op": "flags", "spec": s})
     inc = {"k": "call", "f": "inc"}
     for s in all_syn():
-        cases.append({"op": "flags", "spec": s})
-        cases.append({"op": "flags", "spec": {"k": "run", "el": s}})
-        cases.append({"op": "regroup", "els": [{"k": "run", "el": s}], "flow": [1, 2], "term": None, "brks": [[0], [[0]]]})
-        cases.append({"op": "regroup", "els": [s], "flow": [1, 2], "term": None, "brks": [[0], [[0]]]})
-        cases.append({"op": "regroup", "els": [inc, s, inc], "flow": [1, 2, 3], "term": None,
+        yield ({"op": "flags", "spec": s})
+        yield ({"op": "flags", "spec": {"k": "run", "el": s}})
+        yield ({"op": "regroup", "els": [{"k": "run", "el": s}], "flow": [1, 2], "term": None, "brks": [[0], [[0]]]})
+        yield ({"op": "regroup", "els": [s], "flow": [1, 2], "term": None, "brks": [[0], [[0]]]})
+        yield ({"op": "regroup", "els": [inc, s, inc], "flow": [1, 2, 3], "term": None,
                       "brks": [[0, 1, 2], [[0, 1], 2], [0, [1, 2]], [0, [1], 2]]})
-        cases.append({"op": "source", "first": {"k": "gen", "flow": [1, 2]}, "els": [s, inc], "cuts": [0, 1, 2, 3]})
-        cases.append({"op": "source", "first": s, "els": [inc], "cuts": [0, 1, 2]})
+        yield ({"op": "source", "first": {"k": "gen", "flow": [1, 2]}, "els": [s, inc], "cuts": [0, 1, 2, 3]})
+        yield ({"op": "source", "first": s, "els": [inc], "cuts": [0, 1, 2]})
     # empty sequences / sources
     for fl in ([], [1], FLOW_B):
-        cases.append({"op": "regroup", "els": [], "flow": fl, "term": None, "brks": [[], [[]], [[], [[]]]]})
-        cases.append({"op": "regroup", "els": [], "flow": fl, "term": "Other:ValueError", "brks": [[], [[]]]})
-        cases.append({"op": "regroup", "els": [{"k": "setctx"}], "flow": fl, "term": None, "brks": [[0], [[0]], [[], 0]]})
-    cases.append({"op": "source", "first": {"k": "gen", "flow": [1, 2]}, "els": [], "cuts": [0, 1]})
-    cases.append({"op": "source", "first": {"k": "iter", "flow": [1, 2]}, "els": [], "cuts": [0, 1]})
-    cases.append({"op": "source", "first": {"k": "setctx"}, "els": [], "cuts": [1]})
-    cases.append({"op": "source", "first": {"k": "setctx"}, "els": [{"k": "setctx"}], "cuts": [2]})
-    cases.append({"op": "source", "first": {"k": "setctx"}, "els": [{"k": "gen", "flow": [3, 4]}, inc], "cuts": [1, 2, 3]})
-    cases.append({"op": "source", "first": {"k": "gen", "flow": [3, 4]}, "els": [{"k": "setctx"}], "cuts": [0, 1, 2]})
+        yield ({"op": "regroup", "els": [], "flow": fl, "term": None, "brks": [[], [[]], [[], [[]]]]})
+        yield ({"op": "regroup", "els": [], "flow": fl, "term": "Other:ValueError", "brks": [[], [[]]]})
+        yield ({"op": "regroup", "els": [{"k": "setctx"}], "flow": fl, "term": None, "brks": [[0], [[0]], [[], 0]]})
+    yield ({"op": "source", "first": {"k": "gen", "flow": [1, 2]}, "els": [], "cuts": [0, 1]})
+    yield ({"op": "source", "first": {"k": "iter", "flow": [1, 2]}, "els": [], "cuts": [0, 1]})
+    yield ({"op": "source", "first": {"k": "setctx"}, "els": [], "cuts": [1]})
+    yield ({"op": "source", "first": {"k": "setctx"}, "els": [{"k": "setctx"}], "cuts": [2]})
+    yield ({"op": "source", "first": {"k": "setctx"}, "els": [{"k": "gen", "flow": [3, 4]}, inc], "cuts": [1, 2, 3]})
+    yield ({"op": "source", "first": {"k": "gen", "flow": [3, 4]}, "els": [{"k": "setctx"}], "cuts": [0, 1, 2]})
+    store = {"k": "acc", "a": "store", "group": True}
     for s in kinds:
-        if s["k"] != "seq":     # a LenaSequence as first element would be iterated over its elements: not modelled
-            cases.append({"op": "source", "first": s, "els": [inc], "cuts": [0, 1, 2]})
+        yield ({"op": "source", "first": s, "els": [inc], "cuts": [0, 1, 2]})
+        # a LenaSequence as first element is iterated: its arguments are the flow (a Sequence nested directly in
+        # it would travel as an object the generic model has no value for: left out)
+        if s["k"] != "seq":
+            yield ({"op": "source", "first": {"k": "seq", "els": [s]}, "els": [store], "cuts": [0, 1, 2]})
+    yield ({"op": "source0"})
     # all ordered pairs of representative elements
     reps = REPRESENTATIVES
     for i, a in enumerate(reps):
@@ -957,18 +1132,18 @@ def gen_cases(ctx):
                 continue
             # quick: one of the two flows per pair (alternating); thorough: both
             for fl in ((FLOW_A, FLOW_B) if thorough else ((FLOW_A,) if (i + j) % 2 == 0 else (FLOW_B,))):
-                cases.append({"op": "regroup", "els": [a, b], "flow": fl, "term": None, "brks": [[0, 1], [[0], [1]], [[0, 1]]]})
+                yield ({"op": "regroup", "els": [a, b], "flow": fl, "term": None, "brks": [[0, 1], [[0], [1]], [[0, 1]]]})
     for a in reps:
         for fl, term in ((FLOW_A, "Other:IndexError"), ([], None), ([7], "Other:TypeError")):
-            cases.append({"op": "regroup", "els": [a], "flow": fl, "term": term, "brks": [[0], [[0]]]})
-            cases.append({"op": "source", "first": {"k": "gen", "flow": fl}, "els": [a, inc], "cuts": [0, 1, 2, 3]})
+            yield ({"op": "regroup", "els": [a], "flow": fl, "term": term, "brks": [[0], [[0]]]})
+            yield ({"op": "source", "first": {"k": "gen", "flow": fl}, "els": [a, inc], "cuts": [0, 1, 2, 3]})
     # all bracketings of random lists
     plan = [(2, 30), (3, 40), (4, 30)] if not thorough else [(2, 200), (3, 400), (4, 300), (5, 150)]
     for n, count in plan:
         brks = all_bracketings(n)
         for _ in range(count):
             els = gen_prog(rng, n)
-            cases.append({"op": "regroup", "els": els, "flow": gen_flow(rng), "term": gen_term(rng), "brks": brks})
+            yield ({"op": "regroup", "els": els, "flow": gen_flow(rng), "term": gen_term(rng), "brks": brks})
     # ---- sampled ------------------------------------------------------------------------------------
     n_rand = 2500 if not thorough else 150000
     for _ in range(n_rand):
@@ -979,7 +1154,7 @@ def gen_cases(ctx):
         case = {"op": "regroup", "els": els, "flow": gen_flow(rng), "term": gen_term(rng), "brks": brks}
         if case["term"] is None and rng.random() < 0.3:
             case["lst"] = True       # Sequence.run is handed the list itself, not an iterator over it
-        cases.append(case)
+        yield (case)
     n_src = 1000 if not thorough else 50000
     for _ in range(n_src):
         n = rng.choice([0, 1, 2, 3, 4, 5, 6])
@@ -989,10 +1164,12 @@ def gen_cases(ctx):
             first = {"k": "gen", "flow": gen_flow(rng)}
         elif r < 0.9:
             first = {"k": "iter", "flow": gen_flow(rng)}
+        elif r < 0.95:
+            first = gen_elem(rng, new_state(), 1)
         else:
-            first = gen_elem(rng, {"rerun": False, "branch": False, "floaty": False}, 1)
-        cases.append({"op": "source", "first": first, "els": els, "cuts": list(range(n + 2))})
-    return cases
+            # a Sequence of (non-sequence) elements: iterated, its arguments become the values of the flow
+            first = {"k": "seq", "els": [e for e in (gen_atom(rng, new_state()) for _ in range(rng.randint(0, 3)))]}
+        yield ({"op": "source", "first": first, "els": els, "cuts": list(range(n + 2))})
 
 
 def search_cases(ctx):
@@ -1026,7 +1203,7 @@ def _depth(b):
 
 
 def nontrivial(case, res):
-    if case["op"] == "flags":
+    if case["op"] in ("flags", "source0"):
         return False
     v = res["variants"][0] if res["variants"] else {}
     n_data = sum(1 for f in res["facts"] if f["ctor"] is None and not f["nodata"])
@@ -1035,8 +1212,8 @@ def nontrivial(case, res):
 
 def classify(case, res):
     op = case["op"]
-    if op == "flags":
-        return ["op:flags"]
+    if op in ("flags", "source0"):
+        return ["op:" + op]
     labels = ["op:" + op]
     ks = []
     for s in case["els"]:
